@@ -310,6 +310,7 @@ func checkC06(c *Ctx) {
 	c.checkOperatorLexable(regs)
 	c.checkSignContext(regs)
 	c.checkOperandStackEnds()
+	c.checkSelectorReparse()
 }
 
 func exprSpaced(e ast.Expr) string {
@@ -649,5 +650,83 @@ func (c *Ctx) checkOperandStackEnds() {
 		c.check(s.end == major, "C06-STACK", s.fn, s.what, s.pos,
 			"uses the "+major+" of the slice as the top of the operand stack, like every other site",
 			fmt.Sprintf("this site %s while %d other sites use the %s of the slice as the top of the stack: the operator reads an outer operator's token instead of its own operand", s.what, count[major], major))
+	}
+}
+
+// checkSelectorReparse: C06-SEL. An index selector a[...] is re-parsed as an
+// infix expression unless it is too short to be one. One token cannot be an
+// expression; two can (a[i++], a[not x], a[idx[0]]), so the shortcut that
+// returns the raw tokens must be limited to at most one token.
+func (c *Ctx) checkSelectorReparse() {
+	fd := c.funcDecl("normalizeArraySelector")
+	if fd == nil {
+		c.undecided("C06-SEL", "normalizeArraySelector", "anchor", token.NoPos, "function not found")
+		return
+	}
+	info := c.Zygo.TypesInfo
+	found := 0
+	ast.Inspect(fd.Body, func(n ast.Node) bool {
+		is, ok := n.(*ast.IfStmt)
+		if !ok {
+			return true
+		}
+		be, ok := is.Cond.(*ast.BinaryExpr)
+		if !ok {
+			return true
+		}
+		call, ok := be.X.(*ast.CallExpr)
+		if !ok {
+			return true
+		}
+		id, ok := call.Fun.(*ast.Ident)
+		if !ok || id.Name != "len" || len(call.Args) != 1 {
+			return true
+		}
+		tv := info.Types[be.Y]
+		if tv.Value == nil {
+			return true
+		}
+		k, exact := constant.Int64Val(tv.Value)
+		if !exact {
+			return true
+		}
+		// the branch must return without calling the selector parser
+		returnsRaw := false
+		for _, st := range is.Body.List {
+			if _, ok := st.(*ast.ReturnStmt); ok {
+				returnsRaw = true
+			}
+		}
+		reparses := false
+		ast.Inspect(is.Body, func(m ast.Node) bool {
+			if c2, ok := m.(*ast.CallExpr); ok {
+				if id2, ok := c2.Fun.(*ast.Ident); ok && strings.HasPrefix(id2.Name, "parse") {
+					reparses = true
+				}
+			}
+			return true
+		})
+		if !returnsRaw || reparses {
+			return true
+		}
+		var maxLen int64 = -1
+		switch be.Op {
+		case token.LEQ:
+			maxLen = k
+		case token.LSS:
+			maxLen = k - 1
+		case token.EQL:
+			maxLen = k
+		default:
+			return true
+		}
+		found++
+		c.check(maxLen <= 1, "C06-SEL", "normalizeArraySelector", "only selectors of at most one token skip the re-parse", is.Pos(),
+			"the raw tokens are returned only for a selector of at most one token",
+			fmt.Sprintf("selectors of up to %d tokens are returned without being re-parsed as an infix expression: a two-token selector such as a[i++], a[not x] or a[idx[0]] is indexed with its raw tokens", maxLen))
+		return true
+	})
+	if found == 0 {
+		c.undecided("C06-SEL", "normalizeArraySelector", "shortcut", fd.Pos(), "no length-guarded shortcut found; rule needs review")
 	}
 }
